@@ -163,9 +163,10 @@ fn authenticate_message(lm_challenge_response: &[u8], nt_challenge_response:&[u8
 fn get_payload_field(message: &Component, length: u16, buffer_offset: u32) -> RdpResult<&[u8]> {
     let payload = cast!(DataType::Slice, message["Payload"])?;
     let offset = message.length() as usize - payload.len();
-    let start = buffer_offset as usize - offset;
+    // offset and length come from the peer: the field must lie inside the payload
+    let start = try_option!((buffer_offset as usize).checked_sub(offset), "NTLM: buffer offset points into the message header")?;
     let end = start + length as usize;
-    Ok(&payload[start..end])
+    try_option!(payload.get(start..end), "NTLM: buffer field outside of the payload")
 }
 
 
@@ -549,12 +550,7 @@ impl AuthenticationProtocol  for Ntlm {
             )?
         )?;
 
-        let timestamp = if target_info.contains_key(&AvId::MsvAvTimestamp) {
-            target_info[&AvId::MsvAvTimestamp].clone()
-        }
-        else {
-            panic!("no timestamp available")
-        };
+        let timestamp = try_option!(target_info.get(&AvId::MsvAvTimestamp), "NTLM: no timestamp available in target info")?.clone();
 
         // generate client challenge
         let client_challenge = random(8);
